@@ -24,7 +24,13 @@ class FlowFamily:
             w = wf
             if sub != 'loop' and rng.random() < 0.4:
                 w = flow.permute(wf, rng)
-            scs.append(flow.scenario('', w, a, b, sched, rng.randrange(1 << 30), snap=opts.get('snap', 'rows'), store=opts.get('store', 'mem')))
+            sc_ = flow.scenario('', w, a, b, sched, rng.randrange(1 << 30), snap=opts.get('snap', 'rows'), store=opts.get('store', 'mem'))
+            if sched[2] == 'quiescent' and rng.random() < opts.get('evict', 0.25):
+                # fault: the process is dropped from the cache at one or two quiescent points and reloaded by the next action
+                pts = sorted(set(rng.randint(1, 6) for _ in range(rng.randint(1, 2))))
+                sc_['faults'] = {'evict_at': pts}
+                sc_['sched'] += '+evict'
+            scs.append(sc_)
         exp, order = (None, None)
         if sub != 'loop':
             exp, order = flow.reference(wf, a, b)
@@ -32,10 +38,47 @@ class FlowFamily:
                 'digest': digest([wf, a, b]), 'nontrivial': flow.nontrivial(wf)}
 
     # ---- C04: conformance with the reference interpretation
+    def instance_order(self, h, sc, m, obs):
+        """per task INSTANCE (matters when a backward jump re-enters a branch list): a needs-branch starts running only
+        after a needed sibling under the same parent instance is terminal; an else-branch only after all its if-siblings are"""
+        from monitors import model_facts
+        out = []
+        facts = model_facts(sc)
+        kids = collections.defaultdict(list)
+        for k in h.create_by:
+            p = h.parent(k)
+            if p:
+                kids[p].append(k)
+        term = {}
+        run = {}
+        for e in h.states:
+            k = (e['pid'], e['tid'])
+            if e['new'] in TERM:
+                term.setdefault(k, e['seq'])
+            if e['new'] == 'running':
+                run.setdefault(k, e['seq'])
+        for p, ks in kids.items():
+            for k in ks:
+                kind, node = facts['nodes'].get(h.create_by[k]['nid'], (None, {}))
+                if kind != 'branch' or k not in run:
+                    continue
+                sibs = {h.create_by[x]['nid']: x for x in ks if x != k}
+                if node.get('needs'):
+                    obs['c04.instance-needs-checks'] += 1
+                    if not any(n in sibs and sibs[n] in term and term[sibs[n]] < run[k] for n in node['needs']):
+                        out.append(V('C04', 'order-needs', f"{m['sub']}:instance", f"needs-branch {node['id']} ({k[1]}) started running before any of {node['needs']} under the same parent instance had finished (sched {sc['sched']})", scenario=sc['id']))
+                elif node.get('else'):
+                    obs['c04.instance-else-checks'] += 1
+                    ifs = [x for n, x in sibs.items() if (facts['nodes'].get(n, (None, {}))[1]).get('if') is not None]
+                    if not all(x in term and term[x] < run[k] for x in ifs):
+                        out.append(V('C04', 'order-else', f"{m['sub']}:instance", f"else-branch {node['id']} ({k[1]}) started running before all its siblings under the same parent instance were decided (sched {sc['sched']})", scenario=sc['id']))
+        return out
+
     def judge(self, c, opts, obs):
         out = []
         m = c['meta']
         for h, sc in zip(c['hist'], c['scenarios']):
+            out += self.instance_order(h, sc, m, obs)
             if m['sub'] == 'loop':
                 out += self.judge_loop(h, sc, m, obs)
             else:
